@@ -9,7 +9,8 @@ EXTRA = {'C03-B': ['C17'], 'C05-B': ['C02', 'C17'], 'C16-B': ['C19'], 'C11-B': [
          'C11-F': ['C17'], 'C17-E': ['C03'], 'C14-J': ['C05'], 'C15-G': ['C19'], 'C15-H': ['C16'], 'C11-H': ['C09'], 'C16-H': ['C19'],
          'C02-K': ['C19'], 'C03-K': ['C09'], 'C13-L': ['C11'], 'C14-K': ['C12'], 'C15-L': ['C07'], 'C08-K': ['C11']}
 # changes whose demonstration no longer fails on the repaired tree: the defect they relied on next to their own edit was fixed
-ABSORBED = {'C04-F': 'F22 (add28c3): the marker is saved before the payload of a skipped BigMessage is discarded',
+ABSORBED = {'C02-G': 'F28 (318b962): the wrap test which this change altered was replaced by counting the records; the patch no longer applies',
+            'C04-F': 'F22 (add28c3): the marker is saved before the payload of a skipped BigMessage is discarded',
             'C16-C': 'F23 (5fa9fa0): abandoned records are deleted, so no leftovers count against the limits of a later adoption',
             'C16-F': 'F23 (5fa9fa0): abandoned records are deleted, so no stale storage sequence numbers remain'}
 ids = sys.argv[1:] or sorted(os.path.basename(d) for d in glob.glob(os.path.join(here, 'seeded', 'C*-*')))
